@@ -371,7 +371,9 @@ func (fg *FnGen) closeChan(ch *Val, pos token.Pos) {
 	comp := "cnt:closed"
 	fg.compSort(comp, SInt)
 	cur := fg.get(fg.cur, comp, SInt)
-	fg.frameCheck(comp, nil, pos)
+	if fg.c != nil && fg.c.Safety["effects"] {
+		fg.effectCheck(comp, pos)
+	}
 	fg.set(comp, Add(cur, IntLit(1)))
 	// per-channel closed flag: closing twice panics
 	cc := fg.get(fg.cur, "closed:chan", ArrSort(SBool))
@@ -384,7 +386,7 @@ func (fg *FnGen) closeChan(ch *Val, pos token.Pos) {
 
 func (fg *FnGen) send(x *ssa.Send) {
 	fg.note("channel send: no effect on modelled state")
-	comp := "cnt:sent"
+	comp := "cnt:chansend"
 	cur := fg.get(fg.cur, comp, SInt)
 	fg.set(comp, Add(cur, IntLit(1)))
 }
